@@ -246,7 +246,8 @@ struct vxvec2 { size_t size; size_t v_size; size_t v_val; bool c_valid; size_t c
 #define VXVEC2_GET(V, I, J) ({ size_t vx_i = (I); size_t vx_j = (J); size_t vx_r; \
   VX_IDX_ASSERT(vx_i < (V).size, "pu_indexes[i]: index within the vector"); \
   VX_IDX_ASSERT(vx_i != g_cv || vx_j < (V).v_size, "pu_indexes[i][j]: position within the inner vector"); \
-  g_pi_last_victim = (vx_i == g_cv && vx_j == g_jv); \
+  /* a read beyond the inner vector's end (excluded by the index obligation above) yields an arbitrary value */ \
+  g_pi_last_victim = (vx_i == g_cv && vx_j == g_jv && vx_j < (V).v_size); \
   if (g_pi_last_victim) vx_r = (V).v_val; \
   else if ((V).c_valid && (V).c_i == vx_i && (V).c_j == vx_j) vx_r = (V).c_val; \
   else { (V).c_valid = true; (V).c_i = vx_i; (V).c_j = vx_j; (V).c_val = nondet_size(); vx_r = (V).c_val; } \
